@@ -24,6 +24,15 @@ def write_evidence(prop, tier, seed, level, coverage, wall, violations, assumpti
         json.dump(ev, f, indent=1)
 
 
+def _shorten(v, n=8):
+    """long result tables are cut in samples (the evidence file is a description, not an archive)"""
+    if isinstance(v, list):
+        return [_shorten(i, n) for i in v[:n]] + (["... %d more" % (len(v) - n)] if len(v) > n else [])
+    if isinstance(v, dict):
+        return {k: _shorten(i, n) for k, i in v.items()}
+    return v
+
+
 def sample_of(job, k=0):
     h, cmds = job.execs[k]
     ev = []
@@ -33,7 +42,7 @@ def sample_of(job, k=0):
             if ln.startswith('{"e":"x"'):
                 xn += 1
             if xn == k:
-                ev.append(json.loads(ln))
+                ev.append(_shorten(json.loads(ln)))
             if xn > k or len(ev) >= 12:
                 break
     return {"cfg": job.cfg, "header": h, "commands": cmds[:25], "first_events": ev}
@@ -114,7 +123,13 @@ def run_trace_property(prop, tier, seed, jobs, model_runs=(), assumptions=None, 
 
 def run_seq_property(prop, tier, seed):
     from . import models
-    return run_trace_property(prop, tier, seed, plans.jobs_for(prop, tier, seed), models.MODELS.get(prop, ()))
+    jobs = plans.jobs_for(prop, tier, seed)
+    mods = list(models.MODELS.get(prop, ()))
+    if prop == "C18":      # the table part: min_block_size suffices (driver `tables`, contract TablesTrace)
+        from . import plans_tables
+        jobs += plans_tables.jobs("C18", tier, seed)
+        mods += list(models.MODELS.get("C18T", ()))
+    return run_trace_property(prop, tier, seed, jobs, mods)
 
 
 SEQ_PROPS = {"C01", "C02", "C03", "C04", "C05", "C06", "C07", "C12", "C15", "C18"}
